@@ -29,6 +29,8 @@ A failure is `SPECFAIL side condition <name> does not hold`.  Per flow request a
 exact range of the request's capacity type (`C15_driver_flow`: no overflow, debug = release = the integer
 model); a failure is `SPECFAIL generator left the proved range` (the generator respects the range).
 
+  law <name>                                => ok | VIOLATED <why>      (harness-side law; anything but `ok` is SPECFAIL)
+
 `KNOWN D25` (open): `maximum` on directed storage, everything valid, exactly the answer of the
 mirror model (which follows out-edges only, like the code), but smaller than the maximum.
 -/
@@ -217,6 +219,11 @@ def step (d : DState) (req : List String) (impl : String) : DState × String :=
       match viewSideCondition v with
       | none => ({ v := v, ok := true, enc := enc }, "ok")
       | some why => ({ v := v, ok := false, enc := enc }, s!"SPECFAIL side condition {why}")
+  | "law" :: name =>
+    -- a law checked in the harness against the implementation itself (iterator laws of
+    -- `Matching::nodes()` / `Matching::edges()`, agreement of the iterators with `mate`/`len`)
+    if impl == "ok" then (d, "ok")
+    else (d, s!"SPECFAIL law {String.intercalate " " name}: {impl}")
   | [kind] =>
     if kind != "greedy" && kind != "maximum" then (d, s!"SPECFAIL bad request {req}") else
     let isMax := kind == "maximum"
